@@ -143,6 +143,18 @@ def monitorHist (sc : HScn) (entries : List String) : List (String × String) :=
       match m.lastGiveMe with
       | some l => if t == l then m := m.add "C12" "two-requests-at-one-tick"
       | none => pure ()
+      -- C12: the request carries the current demand. Judged only at instants at which the demand is unambiguous: no
+      -- Enqueue inside the library or made at this very instant, no batch raised, returning or timing out at this instant
+      let effW (b : MBatch) : Nat := b.w.getD ((b.objs.head?.bind fun o => sc.ops[o]?.map (·.w)).getD 0)
+      let ambiguous := (m.calls.any fun c => c.res.isNone || c.t == t || c.freeAt == t) ||
+        (m.batches.any fun b => b.raisedAt == t || b.cbRet == some t || b.raisedAt + effMot sc.c (effW b) == t)
+      if !ambiguous && !m.stale && !m.auditFail && m.shutdownAt.isNone then
+        let outstanding := (m.calls.filter fun c =>
+          let fin := match c.delivered with
+            | some bi => (m.batches[bi]?.map fun b => batchFinished sc b t).getD false
+            | none => false
+          c.res == some "ok" && !fin).foldl (fun acc c => acc + c.cost) 0
+        if n2 != outstanding then m := m.add "C12" "request-value-differs-from-current-demand"
       m := { m with lastGiveMe := some t }
     else if kind == "ev" then
       if a2 == "batch" then
